@@ -27,6 +27,7 @@ if REPO != "/repo" and "VERIF_HARNESS_DIR" not in os.environ:
     HARNESS = _h
     WORK = os.path.join("/tmp", "verif_work_" + hashlib.sha1(REPO.encode()).hexdigest()[:10])
 EVIDENCE = os.path.join(VERIF, "evidence")
+REPLAYS = os.path.join(VERIF, "replays")
 if REPO != "/repo":
     # private copy of the Coq tree (the source-facts translators rewrite coq/Generated from the scratch
     # repository; rsync -a keeps time stamps, so nothing that is up to date is rebuilt) and private evidence,
@@ -37,6 +38,7 @@ if REPO != "/repo":
     subprocess.run(["rsync", "-a", "--delete", os.path.join(VERIF, "coq") + "/", COQ + "/"], check=True)
     WORK = os.path.join("/tmp", "verif_work_" + _k)
     EVIDENCE = os.path.join(WORK, "evidence")
+    REPLAYS = os.path.join(WORK, "replays")
 ENV = dict(os.environ, GOFLAGS="-mod=mod", GOPROXY="off", GOSUMDB="off", GOTOOLCHAIN="local",
            CGO_ENABLED=os.environ.get("CGO_ENABLED", "0"))
 
@@ -72,7 +74,7 @@ class Check:
         self.work = os.path.join(WORK, pid)
         os.makedirs(self.work, exist_ok=True)
         os.makedirs(EVIDENCE, exist_ok=True)
-        os.makedirs(os.path.join(VERIF, "replays"), exist_ok=True)
+        os.makedirs(REPLAYS, exist_ok=True)
         self.env = dict(ENV, VERIF_SEED=str(seed), VERIF_TIER=tier)
         self.violations = []      # list of (replay_path, suffix)
         self.known_hits = {}      # finding id -> text
@@ -209,7 +211,7 @@ class Check:
 
     # ---------------------------------------------------------------- verdict
     def replay_path(self, tag=""):
-        return os.path.join(VERIF, "replays", "%s-%s-%d%s.json" % (self.pid, self.tier, self.seed, tag))
+        return os.path.join(REPLAYS, "%s-%s-%d%s.json" % (self.pid, self.tier, self.seed, tag))
 
     def violation(self, replay_obj, no_input=False, tag=""):
         path = self.replay_path(tag if tag else ("-%d" % len(self.violations) if self.violations else ""))
